@@ -194,6 +194,7 @@ func runC07(c *Ctx) {
 				getW = w
 				mu.Unlock()
 				<-r.Context().Done()
+				s.Yield("scripted-server#ctx-done") // park first, look afterwards
 				mu.Lock()
 				getW = nil
 				mu.Unlock()
@@ -233,6 +234,7 @@ func runC07(c *Ctx) {
 					if isAffected && position == "silent" {
 						emit()
 						<-r.Context().Done()
+						s.Yield("scripted-server#ctx-done") // park first, look afterwards
 						return
 					}
 					if isAffected && position == "before" {
@@ -257,6 +259,7 @@ func runC07(c *Ctx) {
 						io.WriteString(w, c07JSON(items[0]))
 						w.(http.Flusher).Flush()
 						<-r.Context().Done()
+						s.Yield("scripted-server#ctx-done") // park first, look afterwards
 					case "before":
 						io.WriteString(w, c07JSON(items[0])+"\n")
 						w.Write(ans)
@@ -300,6 +303,7 @@ func runC07(c *Ctx) {
 				streamW = w
 				mu.Unlock()
 				<-r.Context().Done()
+				s.Yield("scripted-server#ctx-done") // park first, look afterwards
 				mu.Lock()
 				streamW = nil
 				mu.Unlock()
